@@ -44,6 +44,7 @@ SeqRange(s) == {s[i] : i \in 1..Len(s)}
 Count(s, v) == Cardinality({i \in 1..Len(s) : s[i] = v})
 IsPerm(s, t) == Len(s) = Len(t) /\ \A v \in SeqRange(s) \cup SeqRange(t) : Count(s, v) = Count(t, v)
 IsSorted(s) == \A i \in 1..(Len(s) - 1) : ~LtSeq(s[i + 1], s[i])
+IsSortedDesc(s) == \A i \in 1..(Len(s) - 1) : ~LtSeq(s[i], s[i + 1])     \* sorted by std::greater: no item smaller than its successor
 Rev(s) == [i \in 1..Len(s) |-> s[Len(s) + 1 - i]]
 Take(s, n) == SubSeq(s, 1, n)
 Drop(s, n) == SubSeq(s, n + 1, Len(s))
@@ -90,6 +91,9 @@ Post ==
     [] R.alg = "find" -> <<R.ret = FirstIdx(X, Pivot) /\ Unchanged, "find">>
     [] R.alg = "equal" -> <<R.ret = (IF X = A0 THEN 1 ELSE 0) /\ Unchanged /\ AuxUnchanged, "equal">>
     [] R.alg = "is_sorted" -> <<R.ret = (IF IsSorted(X) THEN 1 ELSE 0) /\ Unchanged, "is_sorted">>
+    \* the same algorithms with std::greater<> (the items' own operator>)
+    [] R.alg = "is_sorted_greater" -> <<R.ret = (IF IsSortedDesc(X) THEN 1 ELSE 0) /\ Unchanged, "is_sorted with greater">>
+    [] R.alg = "sort_greater" -> <<IsPerm(X, Y) /\ IsSortedDesc(Y) /\ AuxUnchanged /\ R.ret = -1, "sorted permutation (greater)">>
     [] R.alg = "accumulate" -> <<R.ret = SumSeq(X) /\ Unchanged, "accumulate">>
     [] R.alg = "lexicographical_compare" ->
          <<R.ret = (IF LtItems(X, A0) THEN 1 ELSE 0) /\ Unchanged /\ AuxUnchanged, "lexicographical_compare">>
